@@ -417,8 +417,11 @@ class InProtocolBase(ProtocolMixin):
         else:
             microsec = min(999999, int(round(float(microsec) * 1e6)))
 
-        return time(int(fields['hr']), int(fields['min']),
+        try:
+            return time(int(fields['hr']), int(fields['min']),
                                                    int(fields['sec']), microsec)
+        except ValueError as e:
+            raise ValidationError(string, "%%r: %s" % str(e).replace('%', '%%'))
 
     def time_from_bytes(self, cls, string):
         if isinstance(string, six.binary_type):
@@ -442,7 +445,11 @@ class InProtocolBase(ProtocolMixin):
                 month = int(match.group('month'))
                 day = int(match.group('day'))
 
-                return date(year, month, day)
+                try:
+                    return date(year, month, day)
+                except ValueError:
+                    # e.g. month 13 or February 30th
+                    raise ValidationError(string)
 
             raise ValidationError(string)
 
@@ -477,7 +484,12 @@ class InProtocolBase(ProtocolMixin):
                                                    for x in ("tz_hr", "tz_min")]
                 if match.group("tz_hr").startswith('-'):
                     tz_min = -tz_min
-                tz = FixedOffset(tz_hr * 60 + tz_min, {})
+                try:
+                    tz = FixedOffset(tz_hr * 60 + tz_min, {})
+                except ValueError as e:
+                    # pytz refuses offsets of a day or more
+                    raise ValidationError(string,
+                                   "%%r: %s" % str(e).replace('%', '%%'))
                 retval = _parse_datetime_iso_match(match, tz=tz)
                 if astz is not None:
                     retval = retval.astimezone(astz)
@@ -519,10 +531,13 @@ class InProtocolBase(ProtocolMixin):
         except ValueError as e:
             match = cls._offset_re.match(string)
             if match:
-                return date(int(match.group('year')),
+                try:
+                    return date(int(match.group('year')),
                             int(match.group('month')), int(match.group('day')))
-            else:
-                raise ValidationError(string,
+                except ValueError as e2:
+                    e = e2
+
+            raise ValidationError(string,
                                          "%%r: %s" % repr(e).replace("%", "%%"))
 
     def date_from_unicode(self, cls, string):
@@ -537,11 +552,14 @@ class InProtocolBase(ProtocolMixin):
         except ValueError as e:
             match = cls._offset_re.match(string)
             if match:
-                return date(int(match.group('year')),
+                try:
+                    return date(int(match.group('year')),
                             int(match.group('month')), int(match.group('day')))
-            else:
-                # the message from ValueError is quite nice already
-                raise ValidationError(e.message, "%s")
+                except ValueError as e2:
+                    e = e2
+
+            raise ValidationError(string,
+                                         "%%r: %s" % repr(e).replace("%", "%%"))
 
     def duration_from_unicode(self, cls, string):
         match = _duration_re.match(string)
@@ -688,7 +706,12 @@ def _parse_datetime_iso_match(date_match, tz=None):
         # datetime can handle.
         usecond = min(999999, int(round(float(usecond) * 1e6)))
 
-    return datetime(year, month, day, hour, minute, second, usecond, tz)
+    try:
+        return datetime(year, month, day, hour, minute, second, usecond, tz)
+    except ValueError as e:
+        # e.g. month 13, hour 25
+        raise ValidationError(date_match.string,
+                                   "%%r: %s" % str(e).replace('%', '%%'))
 
 
 _dt_sec = lambda cls, val: \
